@@ -37,6 +37,9 @@ pub struct Directive {
     /// database right after the clients finish, so the held thread resumes inside the close)
     #[serde(default)]
     pub linger_ms: u32,
+    /// 0: hold at the n-th hit only; k > 0: hold at hit n and at every k-th hit after it
+    #[serde(default)]
+    pub every: u32,
 }
 
 pub struct SchedState {
@@ -119,7 +122,7 @@ fn on_point(name: &'static str) {
         n
     };
     for (di, d) in st.directives.iter().enumerate() {
-        if d.role == me && d.point == name && d.nth == n {
+        if d.role == me && d.point == name && (d.nth == n || (d.every > 0 && n > d.nth && (n - d.nth) % d.every == 0)) {
             HOLDING.fetch_add(1, Ordering::SeqCst);
             st.hold_count.fetch_add(1, Ordering::SeqCst);
             let in_apply = name.starts_with("write.") && name != "write.before_wal";
